@@ -531,11 +531,13 @@ Section Linux.
     end.
 
   Definition cpu_last : N := match bs_last (t_ccpuset T) with Some l => l | None => nr_cpus - 1 end.
+  (* CPU_ALLOC_SIZE(kernel_nr_cpus) * 8: the kernel mask is read through a buffer of that many bits *)
+  Definition setsize_bits : N := (nr_cpus + HWLOC_BITS_PER_LONG - 1) / HWLOC_BITS_PER_LONG * HWLOC_BITS_PER_LONG.
   (* hwloc_linux_get_tid_cpubind *)
   Definition get_tid_cpubind (tid : Z) (w : lw) : hres * lw :=
     let (r, w1) := kc (K_getaffinity tid) w in
     if (k_rc r <? 0)%Z then (hfail (k_errno r), w1)
-    else (HR 0 None (bs_inter (k_set r) (bs_range 0 (cpu_last + 1))) 0, w1).
+    else (HR 0 None (bs_inter (bs_inter (k_set r) (bs_range 0 setsize_bits)) (bs_range 0 (cpu_last + 1))) 0, w1).
 
   (* hwloc_linux_get_tid_last_cpu_location *)
   Definition get_tid_last (tid : Z) (w : lw) : hres * lw :=
